@@ -776,6 +776,157 @@ def stage_pages(rng, wrap, gmodel, flags, klist, stats, viol, known):
     return {"n": len(items), "mismatch": mism}
 
 
+# ---------------------------------------------------------------- P2: compressed pages (the writer only makes uncompressed ones)
+def snappy_literal(data):
+    """a valid raw snappy stream made of literals only"""
+    out = bytearray(wr_vlq(len(data)))
+    for i in range(0, len(data), 60):
+        chunk = data[i:i + 60]
+        out.append((len(chunk) - 1) << 2)
+        out += chunk
+    return bytes(out)
+
+
+def gzip_bytes(data):
+    import zlib
+    co = zlib.compressobj(6, zlib.DEFLATED, 31)
+    return co.compress(data) + co.flush()
+
+
+CODECS = {"snappy": (1, snappy_literal), "gzip": (2, gzip_bytes)}
+
+
+def set_field(struct, fid, value):
+    for f in struct[1]:
+        if f[0] == fid:
+            if f[2][0] == "int":
+                f[2][2] = value
+            elif f[2][0] == "bool":
+                f[2][1] = bool(value)
+                f[1] = T_TRUE if value else T_FALSE
+            return True
+    return False
+
+
+def compress_last_chunk(f, codec):
+    """the same file with the pages of the last column chunk compressed (v1: whole body; v2: everything after the levels)"""
+    cid, fn = CODECS[codec]
+    first = f.pages[0][0]
+    out = bytearray(f.b[:first])
+    for (a, j, tree, e) in f.pages:
+        tree = copy.deepcopy(tree)
+        body = f.b[j:e]
+        fl = {x[0]: x[2] for x in tree[1]}
+        if 8 in fl:
+            f8 = {x[0]: x[2] for x in fl[8][1]}
+            lv = f8[5][2] + f8[6][2]
+            nb = body[:lv] + fn(body[lv:])
+            set_field(fl[8], 7, True)
+        else:
+            nb = fn(body)
+        set_field(tree, 3, len(nb))
+        out += Ser().ser(tree) + nb
+    d = len(out) - f.foot_start
+    tr = copy.deepcopy(f.tree)
+    tmp = PqFile.__new__(PqFile)
+    tmp.tree = tr
+    md = tmp.chunks()[-1][2]
+    set_field(md, 4, cid)
+    for x in md[1]:
+        if x[0] == 7:
+            x[2][2] += d
+    foot = Ser().ser(tr)
+    return bytes(out) + foot + len(foot).to_bytes(4, "little") + b"PAR1"
+
+
+def stage_pages_compressed(rng, wrap, gmodel, flags, klist, stats, viol, known):
+    """compressed v1 / v2 data pages: lies in the sizes, the level byte lengths and the counts of the page header; for the
+    v2 slicing arithmetic the outcome predicted by model/PqFooter.v load_page_v2_compressed (both codec oracles) vs the engine"""
+    le_c, le_u = flags.get("v2_levels_le_compressed"), flags.get("v2_levels_le_uncompressed")
+    if le_c is None or le_u is None:
+        return {"n": 0, "mismatch": [{"what": "v2 level length checks could not be scanned from page_reader.rs"}]}
+    items, meta, base = [], [], []
+    for (v2, codec) in ((0, "snappy"), (1, "snappy"), (1, "gzip"), (0, "gzip")):
+        n = 120
+        c = c10.gen_column(rng, "c0", "i32", "plain", True, "rand", n, style="small")
+        c["pages"] = [n]
+        case = {"id": "pc", "v2": v2, "rgs": [n], "created_by": "gverif fault", "lvl": (8, 1), "cols": [c10.rid_column(n), c], "nrows": n}
+        m = json.loads(common.run_model(gmodel, "write", [c10.spec_line(case, "hex")])[0])
+        f0 = PqFile("pc", bytes.fromhex(m["hex"]))
+        if not f0.pages:
+            continue
+        f = PqFile("pc%d%s" % (v2, codec), compress_last_chunk(f0, codec))
+        name = "pc_v%d_%s" % (2 if v2 else 1, codec)
+        p = os.path.join(WDIR, name + ".parquet")
+        open(p, "wb").write(f.b)
+        base.append((name, p, f.b, "compressed base file %s" % name, "read_parquet"))
+        if not f.pages:
+            continue
+        a, j, tree, e = f.pages[0]
+        size0 = f.chunks()[-1][1]
+        fl = {x[0]: x[2] for x in tree[1]}
+        usz0, csz0 = fl[2][2], fl[3][2]
+        f8 = {x[0]: x[2][2] for x in fl[8][1] if x[2][0] == "int"} if 8 in fl else {}
+        for (k, kind, path, v) in f.page_sites(0):
+            if path in ((2,), (3,)):
+                vals = [-1, 0, v - 2, v + 2, 2 ** 31 - 1, -2 ** 31, 1]
+            elif path in ((8, 5), (8, 6)):
+                vals = [-1, 1, v + 1, max(0, v - 1), usz0 + 1, csz0 + 1, min(usz0, csz0) + 1, max(usz0, csz0) + 1, usz0 - v, csz0, 2 ** 31 - 1, -2 ** 31]
+            elif path in ((8, 1), (8, 2), (8, 3), (5, 1)):
+                vals = [-1, 0, v + 5, 2 ** 31 - 1]
+            else:
+                continue
+            for lie in sorted(set(vals)):
+                if lie == v:
+                    continue
+                nh = Ser(k, lie).ser(tree)
+                d = len(nh) - (j - a)
+                fb = f.page_lie(0, k, lie)
+                cid = "%s_%s_%d" % (name, "_".join(str(x) for x in path), lie)
+                pp = os.path.join(WDIR, cid + ".parquet")
+                open(pp, "wb").write(fb)
+                items.append((cid, pp, fb, "%s page header field %s %d -> %d" % (name, "/".join(str(x) for x in path), v, lie), "read_parquet"))
+                prm = None
+                if v2 and path in ((2,), (3,), (8, 5), (8, 6)):
+                    h = {(2,): usz0, (3,): csz0, (8, 5): f8[5], (8, 6): f8[6]}
+                    h[path] = lie
+                    prm = (size0 + d, len(nh), h[(2,)], h[(3,)], h[(8, 6)], h[(8, 5)])
+                meta.append(prm)
+    vb = evaluate(wrap, base, klist, stats, viol, known, "compressed-valid")
+    mism = [{"case": b[3], "file_hex": b[2].hex()[:600], "model_predicts": "rows (valid file)", "engine": list(c)} for b, c in zip(base, vb) if c[0] != "rows"]
+    body = "From Coq Require Import NArith ZArith.\nFrom GV Require Import model.PqFooter.\nOpen Scope N_scope.\n"
+    bb = lambda x: "true" if x else "false"
+    for prm in meta:
+        if prm:
+            for ok in (True, False):
+                body += "Eval vm_compute in (load_page_v2_compressed %s %s %d %d (%d)%%Z (%d)%%Z (%d)%%Z (%d)%%Z %s).\n" % (
+                    bb(le_c), bb(le_u), prm[0], prm[1], prm[2], prm[3], prm[4], prm[5], bb(ok))
+    rc, out = common.coq_eval("c19q", body)
+    preds = re.findall(r"p_out := (TOk \d+|TErr|TPanic \d+|TFuel);\s*p_alloc := (\d+)", out)
+    if rc != 0 or len(preds) != 2 * sum(1 for x in meta if x):
+        return {"n": 0, "mismatch": mism + [{"what": "model evaluation failed", "log": out[-600:]}]}
+    cl = evaluate(wrap, items, klist, stats, viol, known, "compressed-page-lies")
+    pi = 0
+    for it, prm, (cls, site, msg) in zip(items, meta, cl):
+        if not prm:
+            continue
+        pa, pb = preds[pi][0], preds[pi + 1][0]
+        pi += 2
+        in_reader = "page_reader.rs" in (site or "")
+        if pa.startswith("TPanic"):
+            want = "range end index" if pa == "TPanic 8" else "attempt to subtract with overflow"
+            ok = cls in ("abort", "panic") and in_reader and want in (msg or "")
+        else:
+            ok = not (cls in ("abort", "panic") and in_reader)
+            if pa == "TErr" and pb == "TErr" and cls == "rows":
+                ok = False
+        if not ok:
+            mism.append({"case": it[3], "file_hex": it[2].hex() if len(it[2]) < 3000 else None,
+                         "model_input": {"chunk_len": prm[0], "chunk_offset": prm[1], "uncompressed": prm[2], "compressed": prm[3], "rep_len": prm[4], "def_len": prm[5]},
+                         "model_predicts": [pa, pb], "engine": [cls, site, msg]})
+    return {"n": len(items) + len(base), "mismatch": mism, "modelled": pi // 2}
+
+
 # ---------------------------------------------------------------- S: valid files and their mutations
 COMBOS = [("i32", "plain", False, "none", 0), ("i32", "dict", True, "rand", 0), ("i64", "dbp", False, "none", 1), ("i32", "bss", True, "alt", 1),
           ("bool", "plain", True, "rand", 0), ("bool", "rle", False, "none", 1), ("utf8", "plain", True, "alt", 1), ("utf8", "dict", False, "none", 0),
@@ -984,6 +1135,8 @@ def run(ctx):
     tt.append(time.time())
     pg = stage_pages(common.Rng(ctx["seed"] ^ 0x19), wrap, gmodel, flags, klist, stats, viol, known) if pr["ok"] else {"n": 0, "mismatch": []}
     w = {"n": w["n"] + pg["n"], "mismatch": w["mismatch"] + pg["mismatch"]}
+    pc = stage_pages_compressed(common.Rng(ctx["seed"] ^ 0x1919), wrap, gmodel, flags, klist, stats, viol, known) if pr["ok"] else {"n": 0, "mismatch": []}
+    w = {"n": w["n"] + pc["n"], "mismatch": w["mismatch"] + pc["mismatch"]}
     tt.append(time.time())
     s = stage_files(ctx, rng, wrap, gmodel, klist, stats, viol, known)
     tt.append(time.time())
